@@ -27,6 +27,44 @@ theorem T16_walker_diff_names_changes_reconstructed (hs : H.Sound) (ps : PageSet
   obtain ⟨P, pg, d, b, e, _, _, base, hb, hd⟩ := h3 o ho
   exact ⟨P, pg, d, b, base, e, hb, hd⟩
 
+/-- **T16_walker_names_every_written_slot — absolutely, not relative to the pool page**: along a walk (any origin of the pages on
+the way), for every page handed out: its diff names EVERY slot the walker wrote into it (`G.walkWrites`), and the walker
+writes every meaningful slot at or below every replaced terminal (`set_node` for the nodes, `zero_sibling` for the
+terminators next to one-sided branches).  So a page that lies below a replaced terminal — a page the walk CREATES, which goes
+to a fresh bucket — has every slot the new trie defines in it named by its diff, whatever the un-zeroed pool page held; and
+the part below the terminal of the terminal's own page as well. -/
+theorem T16_walker_names_every_written_slot (hs : H.Sound) (ps : PageSet Node) (root : Node)
+    {S S' : List (Key × VH)} (hS : KeysOK S) (hS' : KeysOK S') {steps : List (Step VH)} (hso : ScriptOK S S' steps)
+    (hps : G.PSOK ps steps) (hrep : Represents H ps root S) (inhibit : Bool) :
+    ∃ w' r pages, (Walker.start root inhibit).runM H ps steps = .ok w' ∧ w'.conclude H = .ok (.root r pages) ∧
+      ∀ o ∈ pages, ∃ P pg d b, o = .updated P pg d b ∧
+        (∀ q ∈ G.walkWrites H ps none root steps, q ≠ [] → specPage q = P → d.changed (specIndex q) = true) ∧
+        ∀ s ∈ steps, s.2.isSome = true → ∀ q, s.1 <+: q → q ≠ [] → q.length ≤ 256 → (q = s.1 ∨ Mean S' q) →
+          specPage q = P → d.changed (specIndex q) = true := by
+  have hrepR := rep_matR H ps hS hso hrep
+  have hDp : PathsIn (MatR ps steps) steps := by
+    intro s hs' x hx hne
+    have := G.pathsIn_of_psok ps hps s hs' x hx hne
+    exact ⟨Or.inl this.1, Or.inl this.2⟩
+  have hnd := G.final_log_nodup H ps hs none hS hS' hso hrepR hDp
+  obtain ⟨w', hw', hinv⟩ := G.runInv_run H ps hs hS hS' hrepR (Or.inl (Or.inl rfl)) steps [] _ _
+    (by simpa using hso) (by simpa using hps) (by simpa using hDp) (by intro P0 hp; cases hp)
+    (G.runInv_start H ps _ none root S S' steps inhibit) _ hnd (tw_compactUp_log_prefix H _ _ none)
+  simp only [List.nil_append] at hinv
+  obtain ⟨pages, hc, hpg⟩ := G.conclude_spec H ps hs hS hS' hso hrepR (Or.inl (Or.inl rfl)) hinv hnd
+  refine ⟨w', _, pages, hw', hc, ?_⟩
+  intro o ho
+  obtain ⟨P, pg, d, b, e, _, _, _, hnamed⟩ := hpg o ho
+  refine ⟨P, pg, d, b, e, hnamed, ?_⟩
+  intro s hs' hsome q hq hne hl hm hqp
+  have hbw := G.walkWrites_block H ps hs hS' none root hso s hs' hsome
+  apply hnamed q ?_ hne hqp
+  rcases hm with h1 | h1
+  · rw [h1]; exact hbw.1
+  · by_cases hqs : q = s.1
+    · rw [hqs]; exact hbw.1
+    · exact hbw.2 q hq hqs hl h1
+
 example : G.PSOK Ex2.ps2r Ex2.steps2 ∧ Represents TH Ex2.ps2r Ex2.root2 Ex2.S2 := ⟨Ex2.psok2r, Ex2.rep2r⟩
 
 end Nomt.C16
